@@ -5,6 +5,7 @@
 -/
 import Minicbor.Drv.Core
 import Minicbor.Drv.Float
+import Minicbor.Drv.Sink
 import Minicbor.Drv.Parse
 import Minicbor.Drv.Derive
 import Minicbor.Drv.Typed
@@ -20,9 +21,11 @@ def dispatch (line : String) : String :=
   | "enc" :: w => encOp w
   | "dec" :: w => decOp w
   | "fblk" :: w => fblkOp w
+  | "sink" :: w => sinkOp w | "sinkenc" :: w => sinkencOp w
   | "encspec" :: w => encSpec w
   | "wf" :: w => wfOp w
   | "seq" :: w => seqOp w
+  | "enciter" :: w => enciterOp w
   | "intconv" :: w => intconvOp w
   | "tenc" :: w => Typed.tencOp w
   | "tdec" :: w => Typed.tdecOp w
